@@ -56,13 +56,17 @@ Shape of the output, per class `C`:
 Supported subset (anything else raises `Unsupported` naming the construct and its line):
   * statements: docstring, `x = e`, `x op= e`, `self.f = e`, `self.f op= e`, `self.f[i] = e`,
     `self.f[i] op= e` (op ∈ `+ -`; on lists `+` is concatenation), `if / elif / else`, `return`,
-    `return {"k": e, …}`, `return e`, `return self.m()`, `self.obj.m(…)` as a statement;
+    `return {"k": e, …}`, `return e`, `return self.m()`, `self.obj.m(…)` as a statement,
+    `while x > y [and <tests>]: x -= <positive int literal>` (x, y int locals): an auxiliary definition
+    `C.m.while<k> … : Nat → Int → Option Int` by recursion on the fuel `(x - y).toNat` (the test fails at the
+    latest when `x ≤ y` and every round lowers `x` by at least 1), the tests in evaluation order;
   * expressions: int literals, locals, `self.f`, `len(xs)`, `xs[i]` (negative indices count from the end,
     out of range = `none`), `xs[a:b]` with literal or absent bounds, `[e, …]`, `+ -` on ints, `+` on lists,
     `min(a, b)` / `max(a, b)` (two arguments, CPython's tie rule), `int(e)` on an int (identity),
     `a if c else b` with a static condition, comparisons `< <= > >= == !=` (chained), `and / or / not`,
     `x is None`, `x is not None`, `any(<comparison on v> for v in xs)`, `"name" in self.<list of names>`,
-    `isinstance(x, (tuple, list))` for an `x` that is an int here (statically `False`);
+    `isinstance(x, (tuple, list))` for an `x` that is an int here (statically `False`), `self.p` for a
+    `@property` whose body is `if <static test>: return e1` … `return e2` (inlined: `int_sizes` = `sizes`);
   * field types come from the annotation of the `__init__` parameter assigned to the field (`int`,
     `List[…]`, `Tuple[…]`), from a dataclass field annotation, from `self.f = HelperClass(…)`, or — for
     attributes not set from a constructor argument (`cnn_output_size`, `mutation_methods`) — from the one
@@ -78,7 +82,11 @@ Assumptions (what is NOT translated):
     `False`, the branches under `if self.tuple_sizes:` are not translated (the generated file lists
     them), an explicit `kernel_size` is an int;
   * `agilerl.utils.evolvable_networks.calc_max_kernel_sizes` (float arithmetic over numpy) is an explicit
-    function parameter `calc_max_kernel_sizes : List Int → List Int → List Int → List Int → List Int`;
+    function parameter `calc_max_kernel_sizes : List Int → List Int → List Int → List Int → List Int`, and the
+    looping method `MutableKernelSizes._later_layers_fit` an explicit parameter
+    `_later_layers_fit : MutableKernelSizes.State → Int → Int → List Int → List Int → Option Bool` (the object's
+    state first; `none` = exception) — both are TRANSLATED by `py2lean_kernel.py` (`Gen/KernelGen.lean`) and the
+    parameters are discharged in `Proofs/KernelGenEq.lean` (`gen_cnn_step_eq_kernel`);
     `self.cnn_output_size` (set by a forward pass in `create_cnn`) and `self.mutation_methods` are
     fields of the state: that they agree with the feature-map arithmetic of the model is a hypothesis of
     the equalities and is checked by the correspondence run;
@@ -120,7 +128,12 @@ TARGETS = (
     (REL_SOURCES[5], "EvolvableNetwork", ("add_latent_node", "remove_latent_node"), "mutation", {}),
 )
 # module-level functions that stay function parameters: name -> (argument types, result type)
-EXTERNALS = {"calc_max_kernel_sizes": (("list", "list", "list", "list"), "list")}
+EXTERNALS = {"calc_max_kernel_sizes": (("list", "list", "list", "list"), "list"),
+             # a method with a loop (translated by py2lean_kernel.py): its object's state first, `none` = exception
+             "_later_layers_fit": ((("obj", "MutableKernelSizes"), "int", "int", "list", "list"), "optbool")}
+# methods `self.m(…)` of a helper class that stay function parameters (they take the object's state first)
+EXT_METHODS = {"MutableKernelSizes": ("_later_layers_fit",)}
+BOOL = "bool"
 
 INT, LIST, OPTINT, STRLIST, NONE, UNIT, DICT = "int", "list", "optint", "strlist", "none", "unit", "dict"
 CMPOPS = {ast.Eq: "=", ast.NotEq: "≠", ast.Lt: "<", ast.LtE: "≤", ast.Gt: ">", ast.GtE: "≥"}
@@ -150,6 +163,10 @@ def lean_ty(t) -> str:
         return "Unit"
     if t == DICT:
         return "Ret"
+    if t == "optbool":
+        return "Option Bool"
+    if t == BOOL:
+        return "Bool"
     if isinstance(t, tuple) and t[0] == "obj":
         return f"{t[1]}.State"
     raise Unsupported(f"{_current_file[0]}: no Lean type for {t!r}")
@@ -482,6 +499,9 @@ class MethodCtx:
         self.nread = 0
         self.nfld = 0
         self.ngen = 0
+        self.nwhile = 0
+        self.aux: list[str] = []                    # auxiliary definitions (while loops), emitted before the method
+        self.while_cache: dict[int, tuple] = {}
 
     # ---------------- signature, numbering
     def signature(self):
@@ -546,6 +566,9 @@ class MethodCtx:
                 elif isinstance(n.func, ast.Name) and n.func.id in EXTERNALS:
                     if n.func.id not in self.exts:
                         self.exts.append(n.func.id)
+                elif self.ext_method(n) is not None:
+                    if n.func.attr not in self.exts:
+                        self.exts.append(n.func.attr)
         for st in self.fn.body:
             visit(st)
         for _key, n, k in sorted(sites, key=lambda e: e[0]):
@@ -570,6 +593,36 @@ class MethodCtx:
                     fail(n, f"call of {oc.name}.{f.attr}, which is not a translated method")
                 return oc.methods[f.attr]
         return None
+
+    def ext_method(self, n):
+        """`self.m(…)` for a method `m` of this helper class that stays a function parameter"""
+        if isinstance(n, ast.Call) and self_attr(n.func) and n.func.attr in EXT_METHODS.get(self.ci.name, ()):
+            return n.func.attr
+        return None
+
+    def property_fn(self, name: str):
+        for st in self.ci.node.body:
+            if isinstance(st, ast.FunctionDef) and st.name == name and len(st.decorator_list) == 1 \
+                    and isinstance(st.decorator_list[0], ast.Name) and st.decorator_list[0].id == "property":
+                return st
+        return None
+
+    def inline_property(self, fn: ast.FunctionDef, env: Env, binds: list, top: bool):
+        """`self.p` for a `@property` whose body is `if <static test>: return e1` … `return e2`"""
+        body = [s for s in fn.body if not is_docstring(s)]
+        while body:
+            st = body[0]
+            if isinstance(st, ast.Return) and st.value is not None:
+                return self.ex(st.value, env, binds, top)
+            if isinstance(st, ast.If):
+                c = self.static_cond(st.test, env)
+                if c is None:
+                    fail(st, f"property {fn.name}: test that is not static")
+                self.note_skipped(list(st.orelse if c else st.body), "else-branch" if c else "then-branch", st.test)
+                body = list(st.body if c else st.orelse) + body[1:]
+                continue
+            fail(st, f"property {fn.name}: {type(st).__name__}")
+        fail(fn, f"property {fn.name} without a return")
 
     def is_obj_field(self, f: str) -> bool:
         init = self.tr.init_fn(self.ci)
@@ -625,6 +678,9 @@ class MethodCtx:
             return env.loc[n.id]
         if isinstance(n, ast.Attribute):
             if self_attr(n):
+                prop = self.property_fn(n.attr)
+                if prop is not None:
+                    return self.inline_property(prop, env, binds, top)
                 return self.field(env, n.attr, n)
             fail(n, f"attribute .{n.attr}")
         if isinstance(n, ast.List):
@@ -754,6 +810,19 @@ class MethodCtx:
                     fail(a, f"argument of {f.id}: a {ty}, expected {want}")
                 parts.append(t)
             return par(f"{f.id} " + " ".join(parts)), rt
+        if self.ext_method(n) is not None:
+            tys, rt = EXTERNALS[f.attr]
+            args = self.plain_args(n, len(tys) - 1, f.attr)
+            parts = [atom(self.state_expr(env))]
+            for a, want in zip(args, tys[1:]):
+                t, ty = self.ex(a, env, binds)
+                if ty != want:
+                    fail(a, f"argument of {f.attr}: a {ty}, expected {want}")
+                parts.append(t)
+            r = f"r{self.nread}"
+            self.nread += 1
+            binds.append(("match", r, f"{f.attr} " + " ".join(parts)))
+            return r, BOOL
         callee = self.callee(n)
         if callee is not None:
             return self.method_call(n, callee, env, binds)
@@ -874,6 +943,11 @@ class MethodCtx:
                 parts.append(f"{ltxt} {op} {rtxt}")
                 ltxt, lt = rtxt, rt
             return parts[0] if len(parts) == 1 else "(" + " ∧ ".join(parts) + ")"
+        if self.ext_method(t) is not None:
+            r, ty = self.ex(t, env, binds)
+            if ty != BOOL:
+                fail(t, f"test on a {ty}")
+            return f"{r} = true"
         if isinstance(t, ast.Call) and isinstance(t.func, ast.Name) and t.func.id in ("any", "all"):
             a, = self.plain_args(t, 1, t.func.id)
             if not (isinstance(a, ast.GeneratorExp) and len(a.generators) == 1 and not a.generators[0].ifs
@@ -943,7 +1017,8 @@ class MethodCtx:
         for n in ast.walk(t):
             if isinstance(n, ast.Subscript) and not isinstance(n.slice, ast.Slice):
                 return True
-            if isinstance(n, ast.Call) and (np_random_call(n) is not None or self.callee(n) is not None):
+            if isinstance(n, ast.Call) and (np_random_call(n) is not None or self.callee(n) is not None
+                                            or self.ext_method(n) is not None):
                 return True
         return False
 
@@ -977,6 +1052,8 @@ class MethodCtx:
             if rest:
                 fail(rest[0], "statement after return")
             return self.ret(st, env)
+        if isinstance(st, ast.While):
+            return self.while_loop(st, env, cont)
         if isinstance(st, ast.Expr):
             if isinstance(st.value, ast.Call) and self.callee(st.value) is not None:
                 binds: list = []
@@ -1031,6 +1108,71 @@ class MethodCtx:
                 return self.wrap(binds, cont(env))
             fail(st, f"assignment target `{ast.unparse(tg)}`")
         fail(st, type(st).__name__)
+
+    def while_loop(self, st: ast.While, env: Env, cont) -> list[str]:
+        """`while x > y [and …]: x -= c` (c a positive literal): an auxiliary definition by recursion on the fuel
+        `(x - y).toNat` (the test fails at the latest when `x ≤ y`, and every round lowers `x` by at least 1)"""
+        if st.orelse:
+            fail(st, "while … else")
+        first = st.test.values[0] if isinstance(st.test, ast.BoolOp) and isinstance(st.test.op, ast.And) else st.test
+        if not (isinstance(first, ast.Compare) and len(first.ops) == 1 and isinstance(first.ops[0], ast.Gt)
+                and isinstance(first.left, ast.Name) and isinstance(first.comparators[0], ast.Name)):
+            fail(st, "while loop whose test does not start with `x > y` (x, y locals)")
+        x, y = first.left.id, first.comparators[0].id
+        if not (len(st.body) == 1 and isinstance(st.body[0], ast.AugAssign) and isinstance(st.body[0].op, ast.Sub)
+                and isinstance(st.body[0].target, ast.Name) and st.body[0].target.id == x and x != y
+                and isinstance(st.body[0].value, ast.Constant) and type(st.body[0].value.value) is int
+                and st.body[0].value.value >= 1):
+            fail(st, f"while loop whose body is not exactly `{x} -= <positive int literal>`")
+        step = st.body[0].value.value
+        for v in (x, y):
+            if env.loc.get(v, (None, None))[1] != INT:
+                fail(st, f"while loop over `{v}`, which is not an int local here")
+        used = []
+        for n in ast.walk(st.test):
+            if isinstance(n, ast.Name) and n.id != x and n.id not in used and n.id != "self":
+                if n.id not in env.loc:
+                    fail(n, f"name {n.id} (not a parameter or a local assigned before on this path)")
+                if env.loc[n.id][1] not in (INT, LIST):
+                    fail(n, f"while test reads {n.id}, a {env.loc[n.id][1]}")
+                used.append(n.id)
+        params = [(env.loc[v][0], env.loc[v][1]) for v in used]
+        ext_decl = "".join(f" ({e} : {' → '.join(atom(lean_ty(t)) for t in EXTERNALS[e][0] + (EXTERNALS[e][1],))})"
+                           for e in self.exts)
+        ext_use = "".join(f" {e}" for e in self.exts)
+        key = tuple(params)
+        if id(st) in self.while_cache and self.while_cache[id(st)][1] == key:
+            name = self.while_cache[id(st)][0]
+        else:
+            name = f"{self.mi.lean_name}.while{self.nwhile}"
+            self.nwhile += 1
+            self.while_cache[id(st)] = (name, key)
+            inner = Env()
+            for v in used:
+                inner.loc[v] = env.loc[v]
+            inner.loc[x] = ("w", INT)
+            pdecl = "".join(f" ({p} : {lean_ty(t)})" for p, t in params)
+            puse = "".join(f" {p}" for p, _ in params)
+            again = [f"{name}{ext_use} s{puse} n (w - {step})"]
+            body = self.cond(st.test, inner, lambda e: again, lambda e: ["some w"])
+            self.aux += [
+                f"/-- the `while` loop of `{self.ci.name}.{self.fn.name}` (line {st.lineno}): `w` = `{x}`, fuel `n`; "
+                f"`none` = exception -/",
+                f"def {name}{ext_decl} (s : {self.ci.name}.State){pdecl} : Nat → Int → Option Int",
+                "  | 0, w => some w",
+                "  | n + 1, w =>",
+            ] + ind(body, 4) + [""]
+        puse = "".join(f" {p}" for p, _ in params)
+        xl, yl = env.loc[x][0], env.loc[y][0]
+        nm = f"l{self.nwhile_res()}"
+        st_txt = atom(self.state_expr(env))
+        env.loc[x] = (nm, INT)
+        return [f"match {name}{ext_use} {st_txt}{puse} ({xl} - {yl}).toNat {xl} with", "| none => none",
+                f"| some {nm} =>"] + ind(cont(env))
+
+    def nwhile_res(self) -> int:
+        self._nres = getattr(self, "_nres", -1) + 1
+        return self._nres
 
     def result(self, env: Env, txt: str) -> str:
         if self.mi.mutation_type is not None:
@@ -1107,7 +1249,7 @@ class MethodCtx:
         deco = f"@mutation(MutationType.{self.mi.mutation_type}) " if mutation else ""
         what = "(fields afterwards, returned dict, `@mutation` method entered last)" if mutation else \
             "(fields afterwards, returned value)"
-        self.mi.lines = [
+        self.mi.lines = self.aux + [
             f"/-- {deco}`{self.ci.name}.{self.fn.name}`: {what}; `none` = exception / impossible draw -/",
             f"def {self.mi.lean_name}{ext} (s : {self.ci.name}.State){params}{draws} : {rt} :=",
         ] + ind(body)
